@@ -43,6 +43,8 @@ class Ledger(object):
         self.suppressions = []  # (rule, key, reason) that were used
         self.notes = []
         self.assumptions = []
+        self.reviewed = None     # callable(obligation) -> bool: set by check.py (reference comparison, DESIGN 11.2)
+        self.by_reference = []
 
     # -- recording -------------------------------------------------------------------------
     def ok(self, rule, key, site, detail=''):
@@ -99,6 +101,12 @@ def finish(ledger, tier, seed, t0, rules_run, explanation, trusted_base, not_dec
         k = open_by_key.get((o.rule, o.key))
         if k is not None:
             matched.append((o, k))
+        elif ledger.reviewed is not None and ledger.reviewed(o):
+            # the rule did not recognise the construct, but the function it looks at is - in normal form - the function on which
+            # this obligation was confirmed: a rule that is too literal must not turn that into an alarm
+            o.status = 'ok'
+            o.detail = '[function unchanged modulo normal form from the reviewed version; rule did not recognise it] ' + (o.detail or '')
+            ledger.by_reference.append({'rule': o.rule, 'key': o.key, 'site': o.site})
         elif (o.rule, o.key) not in seen_new:
             seen_new.add((o.rule, o.key))
             new.append(o)
@@ -165,6 +173,7 @@ def finish(ledger, tier, seed, t0, rules_run, explanation, trusted_base, not_dec
             'instance_floors': {r: {'found': a, 'floor': b} for r, (a, b) in ledger.floors.items()},
             'analysed': ledger.analysed,
             'suppressions': ledger.suppressions,
+            'discharged_by_reviewed_reference': ledger.by_reference,
             'notes': ledger.notes,
             'not_decided': not_decided,
             'samples': samples,
